@@ -8,7 +8,12 @@ Decided:
   R-FORWARD  compute_gamut(…, relative_to=R) evaluates the denominator with the same metric, center, center_to_neutral and
              seed and resets at_l1 / relative_to (necessary for 'equals 1 relative to itself'); the estimator's compute_hull
              builds the gamut cloud and the reference cloud under the same `relative` flag and forwards at_l1, metric, seed
-  R-SEED     seed → default_rng(seed) is the only randomness of the mean width
+  R-SEED     seed → default_rng(seed) is the only randomness of the mean width; the projection directions are draws from a
+             rotation-invariant distribution (normal family; uniform / cube draws are a violation, others undecided); numerator
+             and denominator of a relative gamut each build their generator from the same immutable seed (one Generator object
+             handed to both is a violation)
+  R-QTY      (further) the vectors handed to the entropy are their inputs divided by their own L1 norm; the affine rank of a
+             flat cloud is decided on a scale-free quantity (no absolute tolerance on a variance)
 Not decided: equality with geometric definitions, translation/rotation invariance, monotonicity, JS symmetry/bounds/zero set."""
 from __future__ import annotations
 from ..spec import arr, num, intv, strv, const, none, flag, estimator_fields, S, U_REL, U_CAPTURE
